@@ -172,6 +172,17 @@ fn run(ctx: &Ctx, env: &Env) -> Stats {
             part.finish()
         }));
     }
+    jobs.push(Box::new(move |ctx: &Ctx| {
+        let mut part = Part::new(ctx, "far_positions", "reads, seeks, skips and position reports beyond 2^32 bits on a synthetic backend, buffered and unbuffered", true);
+        for e in En::ALL {
+            for unbuf in [false, true] {
+                for far in [1u64 << 32, (1 << 33) + 64, 1 << 40] {
+                    part.check(&FarSeek { e, unbuf, far }, &|c: &FarSeek| check_far(c));
+                }
+            }
+        }
+        part.finish()
+    }));
     run_jobs(ctx, jobs)
 }
 
@@ -242,7 +253,143 @@ pub fn gen_case(s: &mut Src, max_ops: usize) -> Case {
     RCase { cfg, img, cut_words: None, ops: with_pos(ops), free: false }
 }
 
+/// Positions beyond 2^32 bits on a synthetic backend whose word i is a fixed function of i: reads, seeks, skips
+/// and position reports far into the stream, on the buffered (u64 words) or the unbuffered reader.
+#[derive(Clone, Copy, PartialEq, Eq, Hash, Debug, serde::Serialize, serde::Deserialize)]
+pub struct FarSeek {
+    pub e: En,
+    pub unbuf: bool,
+    pub far: u64,
+}
+
+fn fn_word(i: u64) -> u64 {
+    let mut z = i.wrapping_add(0x9E37_79B9_7F4A_7C15).wrapping_mul(0xBF58_476D_1CE4_E5B9);
+    z ^= z >> 29;
+    z.wrapping_mul(0x94D0_49BB_1331_11EB) | 1
+}
+
+struct FnWords {
+    pos: u64,
+}
+impl dsi_bitstream::traits::WordRead for FnWords {
+    type Error = std::convert::Infallible;
+    type Word = u64;
+    fn read_word(&mut self) -> Result<u64, Self::Error> {
+        let w = fn_word(self.pos);
+        self.pos += 1;
+        Ok(w)
+    }
+}
+impl dsi_bitstream::traits::WordSeek for FnWords {
+    type Error = std::convert::Infallible;
+    fn word_pos(&mut self) -> Result<u64, Self::Error> {
+        Ok(self.pos)
+    }
+    fn set_word_pos(&mut self, p: u64) -> Result<(), Self::Error> {
+        self.pos = p;
+        Ok(())
+    }
+}
+
+/// the n <= 64 stream bits starting at bit p
+fn far_bits(e: En, p: u64, n: usize) -> u64 {
+    if n == 0 {
+        return 0;
+    }
+    let (i, off) = (p / 64, (p % 64) as u32);
+    let mask: u128 = if n == 64 { u64::MAX as u128 } else { (1u128 << n) - 1 };
+    match e {
+        // the reader converts every backend word with to_be(): stream-order value of word i
+        En::BE => {
+            let w = ((fn_word(i).to_be() as u128) << 64) | fn_word(i + 1).to_be() as u128;
+            ((w >> (128 - off as usize - n)) & mask) as u64
+        }
+        En::LE => {
+            let w = (fn_word(i).to_le() as u128) | ((fn_word(i + 1).to_le() as u128) << 64);
+            ((w >> off) & mask) as u64
+        }
+    }
+}
+
+pub fn check_far(c: &FarSeek) -> CheckResult {
+    use dsi_bitstream::prelude::*;
+    let mut o = Outcome::new();
+    let e = c.e;
+    macro_rules! drive {
+        ($rd:expr) => {{
+            let mut rd = $rd;
+            let mut p: u64 = 0;
+            macro_rules! rd_bits {
+                ($n:expr) => {{
+                    let n: usize = $n;
+                    match rd.read_bits(n) {
+                        Ok(v) if v == far_bits(e, p, n) => p += n as u64,
+                        other => vcore::fail!("far/read_bits", "{:?}: read_bits({}) at bit {} returned {:?}, expected {:#x}", c, n, p, other.map_err(|e| e.to_string()), far_bits(e, p, n)),
+                    }
+                }};
+            }
+            macro_rules! pos {
+                () => {{
+                    match rd.bit_pos() {
+                        Ok(q) if q == p => {}
+                        other => vcore::fail!("far/bit_pos", "{:?}: bit_pos() = {:?}, expected {}", c, other.map_err(|e| e.to_string()), p),
+                    }
+                }};
+            }
+            macro_rules! seek {
+                ($t:expr) => {{
+                    let t: u64 = $t;
+                    if rd.set_bit_pos(t).is_err() {
+                        vcore::fail!("far/set_bit_pos", "{:?}: set_bit_pos({}) failed", c, t);
+                    }
+                    p = t;
+                }};
+            }
+            rd_bits!(5);
+            pos!();
+            seek!(c.far + 8);
+            pos!();
+            rd_bits!(13);
+            seek!(5);
+            rd_bits!(3);
+            pos!();
+            seek!(c.far + 8);
+            rd_bits!(64);
+            pos!();
+            seek!((c.far << 1) + 70);
+            rd_bits!(7);
+            // a skip of more than 2^32 bits
+            if rd.skip_bits((1usize << 32) + 5).is_err() {
+                vcore::fail!("far/skip_bits", "{:?}: skip_bits(2^32+5) failed", c);
+            }
+            p += (1u64 << 32) + 5;
+            pos!();
+            rd_bits!(64);
+            rd_bits!(1);
+            pos!();
+            // back by a multiple of 2^32 plus a few bits, and to a position whose low 32 bits repeat the current ones
+            seek!(p - (1u64 << 32) + 3);
+            rd_bits!(17);
+            seek!(p + (1u64 << 32));
+            pos!();
+            rd_bits!(9);
+        }};
+    }
+    match (e, c.unbuf) {
+        (En::BE, false) => drive!(BufBitReader::<BE, _>::new(FnWords { pos: 0 })),
+        (En::LE, false) => drive!(BufBitReader::<LE, _>::new(FnWords { pos: 0 })),
+        (En::BE, true) => drive!(BitReader::<BE, _>::new(FnWords { pos: 0 })),
+        (En::LE, true) => drive!(BitReader::<LE, _>::new(FnWords { pos: 0 })),
+    }
+    o.nt("positions_beyond_2^32_bits");
+    Ok(o)
+}
+
 fn replay(v: &serde_json::Value, env: &Env) -> CheckResult {
+    if v.get("far").is_some() && v.get("unbuf").is_some() {
+        let c: FarSeek = serde_json::from_value(v.clone()).map_err(|e| Failure::new("replay/parse", e.to_string()))?;
+        return run_guarded(&c, &|c: &FarSeek| check_far(c));
+    }
     let c: Case = serde_json::from_value(v.clone()).map_err(|e| Failure::new("replay/parse", e.to_string()))?;
     run_guarded(&c, &|c: &Case| check_case(c, env))
 }
